@@ -691,6 +691,8 @@ impl Stream for NodeStream {
             settings.max_immutable_values = v[2];
             settings.max_mutable_values = v[3];
         }
+        // tid0=<n>: the socket's transaction id counter starts at n (wrap-around cases)
+        verif::set_first_tid(kv(args, "tid0").map(|t| t.parse().expect("tid0")).unwrap_or(0));
         verif::prepare_bind(ip, seed | 1, false);
         let cfg = Config { bootstrap: boot, port: Some(6881), server_settings: settings, server_mode, public_ip };
         self.client_mode_cfg = !server_mode;
@@ -981,6 +983,8 @@ pub struct VPeer {
     pub ignore_gets: bool,
     /// never answers put requests
     pub ignore_puts: bool,
+    /// flags its answers to put requests read-only (ro = 1)
+    pub ro_puts: bool,
 }
 
 pub struct VNet {
@@ -1008,7 +1012,7 @@ impl VNet {
             let addr = SocketAddrV4::new(ip, 6881);
             let id = Id::from_bytes(rng.id20()).expect("id");
             by_addr.insert(addr, i);
-            peers.push(VPeer { id, addr, alive: true, mode: 0, read_only: false, imm: HashMap::new(), muts: HashMap::new(), peers: HashMap::new(), speers: HashMap::new(), put_reply: 0, forge: 0, extra_delay: 0, put_delay: 0, ignore_gets: false, ignore_puts: false });
+            peers.push(VPeer { id, addr, alive: true, mode: 0, read_only: false, imm: HashMap::new(), muts: HashMap::new(), peers: HashMap::new(), speers: HashMap::new(), put_reply: 0, forge: 0, extra_delay: 0, put_delay: 0, ignore_gets: false, ignore_puts: false, ro_puts: false });
         }
         VNet { peers, by_addr }
     }
@@ -1223,13 +1227,15 @@ pub struct Driver<'a> {
     pub known: std::collections::HashSet<String>,
     /// the address the peers report seeing the node at (default: its real address)
     pub report_ip: Option<SocketAddrV4>,
+    /// first transaction id of the node's socket (default 0)
+    pub tid0: Option<u32>,
     /// (request key, sender, message) of every answer delivered to the node
     pub delivered: Vec<(String, SocketAddrV4, MessageType)>,
 }
 
 impl<'a> Driver<'a> {
     pub fn new(out: &'a mut Out, seed: u64, net: VNet) -> Self {
-        Driver { s: NodeStream::new(), out, rng: Rng::new(seed), net, queue: vec![], latency: 5 * MS, seq: 0, next_call: 0, drop_pct: 0, dup_pct: 0, late_pct: 0, reachable: false, known: Default::default(), report_ip: None, delivered: vec![] }
+        Driver { s: NodeStream::new(), out, rng: Rng::new(seed), net, queue: vec![], latency: 5 * MS, seq: 0, next_call: 0, drop_pct: 0, dup_pct: 0, late_pct: 0, reachable: false, known: Default::default(), report_ip: None, tid0: None, delivered: vec![] }
     }
     /// a peer sends a request to the node
     pub fn inject_request(&mut self, from: SocketAddrV4, requester: Id, rt: RequestTypeSpecific, ro: bool) {
@@ -1247,7 +1253,8 @@ impl<'a> Driver<'a> {
         self.known.clear();
         self.next_call = 0;
         let ip = ip.map(|ip| format!(" ip={}", u32::from(ip))).unwrap_or_default();
-        self.out.begin(&mut self.s, &format!("node mode={mode} boot={b} pub={p}{ip} seed={seed} t0={t0}"));
+        let tid0 = self.tid0.map(|t| format!(" tid0={t}")).unwrap_or_default();
+        self.out.begin(&mut self.s, &format!("node mode={mode} boot={b} pub={p}{ip}{tid0} seed={seed} t0={t0}"));
         self.run("init".into());
     }
     pub fn handle_sent(&mut self, sent: &[Sent]) {
@@ -1266,8 +1273,8 @@ impl<'a> Driver<'a> {
             }
             let from = s.to;
             let mt = self.net.reply(i, req, self.s.addr);
-            let ro = self.net.peers[i].read_only;
             let is_put = matches!(req.request_type, RequestTypeSpecific::Put(_));
+            let ro = self.net.peers[i].read_only || (is_put && self.net.peers[i].ro_puts);
             let is_ping = matches!(req.request_type, RequestTypeSpecific::Ping);
             if (is_put && self.net.peers[i].ignore_puts) || (!is_put && !is_ping && self.net.peers[i].ignore_gets) {
                 continue;
@@ -1836,6 +1843,30 @@ pub fn run(out: &mut Out, seed: u64, thorough: bool, replay: Option<&str>) {
             d.s.shutdown();
         }
     }
+    // ---- E2: storing nodes that flag their answers to PUT requests read-only (C18): acknowledgements and
+    //          errors flagged ro = 1 are ignored, so nothing was acknowledged
+    for (code, mutable) in [(0i32, false), (0, true), (301, true), (302, true)] {
+        t0 += 10_000_000_000_000;
+        let mut net = VNet::new(&mut rng, 4, true);
+        for p in net.peers.iter_mut() {
+            p.ro_puts = true;
+            p.put_reply = code;
+        }
+        let boot = vec![net.peers[0].addr];
+        let mut d = Driver::new(out, rng.next(), net);
+        d.begin("c", &boot, None, rng.next() % 1_000_000 + 1, t0);
+        d.run_for(2 * SEC, 10 * MS);
+        if mutable {
+            let c = put_mut_call(9, 5, b"first", None, Some(4));
+            d.api(format!("{c} expect=timeout prop=C18"));
+        } else {
+            d.api("put_imm v=0a0b0c expect=timeout prop=C18".to_string());
+        }
+        d.settle(20 * SEC, 10 * MS);
+        d.finish();
+        d.out.mark_distinct(fnv(format!("E2{code}{mutable}").as_bytes()));
+        d.s.shutdown();
+    }
     // ---- F: adaptive mode (C18): reachable at the voted address -> server after the next refresh;
     //         NATed (self-ping lost) -> stays a client
     for (reachable, explicit_server) in [(true, false), (false, false), (true, true)] {
@@ -2138,6 +2169,31 @@ pub fn run(out: &mut Out, seed: u64, thorough: bool, replay: Option<&str>) {
         }
         d.finish();
         d.out.mark_distinct(fnv(format!("F3{same_port_other_ip}").as_bytes()));
+        d.s.shutdown();
+    }
+    // ---- W: the socket's transaction id counter wraps around u32::MAX in the middle of lookups and puts
+    //         (C07, C09): nothing changes for the lookup
+    for (round, back) in [3u32, 1, 7, 40].iter().enumerate() {
+        t0 += 10_000_000_000_000;
+        let net = VNet::new(&mut rng, [6usize, 12, 25, 30][round], true);
+        let boot = vec![net.peers[0].addr];
+        let mut d = Driver::new(out, rng.next(), net);
+        d.tid0 = Some(u32::MAX - back);
+        d.begin("c", &boot, None, rng.next() % 1_000_000 + 1, t0);
+        d.run_for(2 * SEC, 10 * MS);
+        for k in 0..3 {
+            let t = Id::from_bytes(rng.id20()).expect("id");
+            let call = if k == 1 { format!("find_node t={}", hex(t.as_bytes())) } else { format!("get_peers ih={}", hex(t.as_bytes())) };
+            d.lookup_and_check_closure(call, &t);
+        }
+        let v = format!("across the wrap {round}").into_bytes();
+        d.api(format!("put_imm v={} expect=ok prop=C08", hex(&v)));
+        d.settle(20 * SEC, 10 * MS);
+        d.api(format!("get_imm t={}", hex(imm_target(&v).as_bytes())));
+        d.settle(20 * SEC, 10 * MS);
+        d.run("snap".into());
+        d.finish();
+        d.out.mark_distinct(fnv(format!("W{round}").as_bytes()));
         d.s.shutdown();
     }
     // ---- L: a put started from the lookup cache is storing when another lookup of the same target
